@@ -139,7 +139,7 @@ def coexistence(names, rng, n=32, cplx=False):
     return res
 
 
-FUNCTIONS = ['speriodogram', 'CORRELOGRAMPSD', 'CORRELATION', 'xcorr', 'arburg', 'aryule', 'arcovar', 'modcovar',
+FUNCTIONS = ['speriodogram', 'speriodogram-2d', 'CORRELOGRAMPSD', 'CORRELATION', 'xcorr', 'arburg', 'aryule', 'arcovar', 'modcovar',
              'arcovar_marple', 'modcovar_marple', 'arma_estimate', 'ma', 'minvar', 'music', 'ev', 'pmtm-unity',
              'pmtm-eigen', 'pmtm-adapt']
 
@@ -150,6 +150,9 @@ def functional(name, x, nfft, **over):
     p.update(over)
     if name == 'speriodogram':
         return {'psd': sp.speriodogram(x, NFFT=nfft, detrend=False, scale_by_freq=False, window='hamming')}
+    if name == 'speriodogram-2d':
+        X = np.column_stack([x, x[::-1], np.conj(x) * 0.5])       # three columns, column-wise estimate
+        return {'psd': sp.speriodogram(X, NFFT=nfft, detrend=False, scale_by_freq=False, window='hamming')}
     if name == 'CORRELOGRAMPSD':
         return {'psd': sp.CORRELOGRAMPSD(x, lag=p['corrlag'], NFFT=nfft, norm='biased')}
     if name == 'CORRELATION':
